@@ -7,16 +7,16 @@ CLAIMS = {
  "C01": ("refusal gate bound to the FileDesc's own OTI/object (MPT+WMC); per-scheme capacity constants fit the wire field; partition call agreement and RFC 5052 closed forms; Z written >= 1; metadata flow object -> FDT File -> writer metadata; decoding parameters only from packet / FDT; BlockWriter byte accounting, MD5 switch order, no feeding of the inflater after the content length; receive-once decision table; receiver block addressing; close-object flag never premature",
          "E2 structural rules over MIR (must-pass-through, who-may-call, slices, arm constants vs RFC widths), polynomial normal forms, E3 decision tables, E4 ranges",
          "byte-exact round trip, FEC/inflate/XML library behaviour and exactly-one-copy are NOT decided"),
- "C02": ("close-object flag accounts for every interleaved block, counts source symbols only (esi < k) and compares with the transfer length; symbol consumed before the flag acts; duplicates neither overwrite nor count; decode thresholds over all orderings; attach_fdt records the instance id before it opens the writer and flushes decoded blocks",
+ "C02": ("close-object flag accounts for every interleaved block, counts source symbols only (esi < k) and compares with the transfer length; symbol consumed before the flag acts; duplicates neither overwrite nor count; decode thresholds over all orderings; attach_fdt records the instance id before it opens the writer, replays the cached packets and flushes decoded blocks; the transfer counter behind the B flag counts completed transfers only",
          "E2 dependence/dominance rules + E3 decision tables over comparison orderings",
          "delivery for every loss pattern (liveness, MDS property of the RS library) is NOT decided"),
  "C03": ("MD5 gate before complete(); strict SBN order; first copy wins; at most one terminal writer call over all entry orders (typestate); stale packets ignored; decoding parameters only from packet / FDT; BlockWriter byte accounting (trim to bytes_left, content-length limit, MD5 finalised on completion, MD5 switch decided before the BlockWriter is built)",
          "E2 dominance rules + E3 interprocedural typestate exploration",
          "equality of written bytes with the sender's bytes over all histories is NOT decided"),
- "C04": ("exhaustive inventory of panic-capable sites, loops, allocations and third-party calls reachable from the receiver entry points; each discharged by the range interpreter, reviewed in a table with re-checked guards (each precondition of the raptorq constructor as a dominating fact), or a known finding; failed / expired FDT instances are released (decision table over FDT states)",
+ "C04": ("exhaustive inventory of panic-capable sites, loops, allocations and third-party calls reachable from the receiver entry points; each discharged by the range interpreter, reviewed in a table with re-checked guards (each precondition of the raptorq constructor as a dominating fact), or a known finding; failed / expired FDT instances are released (decision table over FDT states); the packet-cache byte counter is reset only where the cache was emptied",
          "E1 call-graph inventory + E4 range interpreter (intervals, lengths, option-ness, difference facts) + reviewed tables",
          "'a later valid session is still delivered', time and heap numbers are NOT decided; dependencies trusted beyond the listed preconditions"),
- "C05": ("filesystem sinks only in ObjectWriterFS::{open,error}; every sink path is dest.join(rel) behind a confinement check on rel; only created files are deleted",
+ "C05": ("filesystem sinks only in ObjectWriterFS::{open,error}; every sink path is dest.join(rel) behind a confinement check on rel, and the joined value derives from the value the check looked at; only created files are deleted",
          "E2 who-may-call + taint/sanitiser/sink dominance with a decision table over path::Component variants",
          "semantics of url::Url::path and symlinks inside the destination are NOT decided"),
  "C06": ("writer layout = reader layout = RFC layout bit by bit for EXT_FTI and FEC payload ids of 5 schemes, EXT_FDT (20-bit id range re-checked), EXT_CENC, EXT_TIME; first LCT word flags at their RFC 5651 positions with the right source (A <- close_session, B <- close_object) and CCI/TSI/TOI byte counts; width-class tables of the byte-count helpers and flag derivation; fixed-length extension boundary; NTP offset / scaling structure; inc_hdr_len bookkeeping; no lossy narrow shift",
@@ -25,13 +25,13 @@ CLAIMS = {
  "C07": ("all callers of block_partitioning / block_length agree on argument roles and widths; RaptorQ/Raptor readers rebuild B from F, Z, T; Z written from the same partition call and never 0 (range vs the reader's refusal); RFC 5052 closed forms (polynomial normal forms); the receiver partitions with the object's own OTI (File before instance)",
          "E2 argument provenance with expanded expression trees + polynomial normal forms + E4 ranges",
          "equality with RFC 5052 for all (L,E,B) is a numerical identity and NOT decided"),
- "C08": ("close-object flag sources (all blocks drained and nothing left to open / forced close / lone packet only for transfer length 0, debug-only guards not counted) and the stopped latch; byte threshold = transfer length; close-session constant; A/B flags at RFC positions on both sides; shard cursor and block counter only move by +1; shard creation (count, dispatch, roles, ESI = position, RS padding); stream reads (fill loop, Interrupted retried, rewind per transfer)",
+ "C08": ("close-object flag sources (all blocks drained and nothing left to open / forced close / lone packet only for transfer length 0, debug-only guards not counted) and the stopped latch; byte threshold = transfer length; close-session constant; A/B flags at RFC positions on both sides; shard cursor and block counter only move by +1; shard creation (count, dispatch, roles, ESI = position, RS padding); stream reads (fill loop, Interrupted retried, rewind per transfer); block partitioning arguments derive from the object's own OTI and transfer length; transfer counter written only in done (+1) / init (reset under carousel)",
          "E2 dependence, dominance and who-writes-field rules",
          "payload slices and repair symbol counts are NOT decided"),
- "C09": ("who-may-call for the five ObjectWriter methods; typestate of the writer session over all orders and repetitions of the ObjectReceiver entry points followed by Drop; complete gated by is_completed+MD5 or zero length; writer created only when no session exists and FDT id / cenc / length / OTI are known, open only on StoreObject, MD5 switch decided before the BlockWriter; no leak primitives",
+ "C09": ("who-may-call for the five ObjectWriter methods; typestate of the writer session over all orders and repetitions of the ObjectReceiver entry points followed by Drop; complete gated by is_completed+MD5 or zero length; writer created only when no session exists and FDT id / cenc / length / OTI are known, open only on StoreObject, MD5 switch decided before the BlockWriter; no leak primitives; decoding parameters only from packet / FDT (Null content encoding defaulted for TOI 0 only)",
          "E3 finite-domain interprocedural typestate interpreter with method summaries + E2 who-may-call",
          "'concatenated writes are a prefix of the content' (bytes) is NOT decided; user writers cannot re-enter the receiver"),
- "C10": ("instance id written only in new/publish, every stored value in [0,2^20-1] (initial value included), each queued instance followed by the increment and carrying the pre-increment id; metadata flow; Expires = ntp(now of this publication) + duration; renewal predicate shape and publish-before-pop; publish marks all files; list source by publish mode; receiver-side extraction order and sibling agreement; FDT bytes reach the parser unaltered",
+ "C10": ("instance id written only in new/publish, every stored value in [0,2^20-1] (initial value included), each queued instance followed by the increment and carrying the pre-increment id; metadata flow; Expires = ntp(now of this publication) + duration; last_publish recorded only after the instance was queued; renewal predicate shape and publish-before-pop; publish marks all files; list source by publish mode; receiver-side extraction order and sibling agreement; FDT bytes reach the parser unaltered",
          "E2 who-writes-field/pairing/dependence/fallback-order rules + E4 range of the assigned id",
          "XML well-formedness/escaping, set equality over histories and supersede timing are NOT decided"),
  "C11": ("FDT session polled first; object sessions emit only past the FDT-pending gate evaluated after get_next; FullFDT eligibility requires published; set_published only in publish and only after the instance is queued; auto-publish pairing",
@@ -52,7 +52,7 @@ CLAIMS = {
  "C16": ("state Completed implies complete() delivered or ObjectAlreadyReceived (typestate over all entry orders); replay pairings incl. flush of blocks decoded before the FDT and attach ordering; registry insert only under Completed; in-band Z / B from the same partition roles; every transfer start republishes in being-transferred mode; the instance offered to waiting objects is the one just completed; decoding parameters not frozen before the FDT",
          "E3 typestate + E2 pairing/dominance",
          "delivery within two cycles for every join offset (liveness) is NOT decided"),
- "C17": ("inventory of growth calls on receiver registries each with a bound; cache counter grows by at least the cached datagram; block allocation limit accounts in bytes in both arms; timeout clock refreshed only by packets of the object; cleanup decision table over FDT states and timeouts; cleanup covers every registry",
+ "C17": ("inventory of growth calls on receiver registries each with a bound; cache counter grows by at least the cached datagram and is reset only where the cache was emptied; block allocation limit accounts in bytes in both arms; timeout clock refreshed only by packets of the object; cleanup decision table over FDT states and timeouts; cleanup covers every registry",
          "E2 who-may-call over growth methods + dominance/pairing + predicate inspection",
          "live heap bytes are NOT decided"),
  "C18": ("routing key provenance and derived Hash/Eq; filter gate before dispatch; open only on creation, every removal paired with close for the removed keys and close only for a session that existed, single evaluation of clock-reading predicates; sibling refcount shapes; the four filter calls hand their own (endpoint, tsi) to the matching TSIFilter method and the filter's add/remove bookkeeping is symmetric; listener ids come from a counter that only grows",
